@@ -5,7 +5,7 @@ CHECK = Check(
     "C13",
     props_modules=["OW.Props.C13", "OW.Props.Rounded.C13"],
     # arithmetic only (+ - * / comparisons, math.Min/Max/Abs) → bit-exact correspondence
-    families=[Family("K", rtol=None, args=["models=Storage", "prop=C13", "n=300"], label="K-storage"),
+    families=[Family("K", rtol=None, args=["models=Storage", "prop=C13", "n=600"], label="K-storage"),
               # "per-cell table lengths": several cells with tables of different length in one vectorised Run, each cell
               # re-run alone inside the worker (family W's single-cell oracle) and compared with the wrapper model
               Family("W", rtol=None, args=["models=Storage", "n=40"], label="W-storage-per-cell-tables")],
